@@ -314,10 +314,14 @@ func (la *lockAnalysis) buildDynamicEdges() {
 	for _, f := range c.Funcs {
 		eachInstr(f, func(in ssa.Instruction) {
 			k, ok := in.(*ssa.Call)
-			if !ok || wrapRetry == nil || c.StaticCalleeOf(&k.Call) != wrapRetry || len(k.Call.Args) < 2 {
+			if !ok || wrapRetry == nil {
 				return
 			}
-			h, _ := c.closureOf(k.Call.Args[1])
+			wi, isWrap := c.wrapInfoOf(c.StaticCalleeOf(&k.Call))
+			if !isWrap || wi.handle < 0 || len(k.Call.Args) <= wi.handle {
+				return
+			}
+			h, _ := c.closureOf(k.Call.Args[wi.handle])
 			if h == nil {
 				return
 			}
